@@ -40,7 +40,7 @@ M = [
  ("C04__ladder_offset_15", "point_mul_glv.go", "\tconst off = 16\n\tk1Bytes, k2Bytes := k1.Bytes(), k2.Bytes()\n\tk1Bytes, k2Bytes = k1Bytes[off:], k2Bytes[off:]\n\n\tfor i := 0; i < ScalarSize-off; i++ {\n\t\tif i != 0 {\n\t\t\tv.doubleComplete(v)\n\t\t\tv.doubleComplete(v)\n\t\t\tv.doubleComplete(v)\n\t\t\tv.doubleComplete(v)\n\t\t}\n\n\t\tbK1, bK2 := k1Bytes[i], k2Bytes[i]\n\n\t\tpTbl.SelectAndAdd(", "\tconst off = 17\n\tk1Bytes, k2Bytes := k1.Bytes(), k2.Bytes()\n\tk1Bytes, k2Bytes = k1Bytes[off:], k2Bytes[off:]\n\n\tfor i := 0; i < ScalarSize-off; i++ {\n\t\tif i != 0 {\n\t\t\tv.doubleComplete(v)\n\t\t\tv.doubleComplete(v)\n\t\t\tv.doubleComplete(v)\n\t\t\tv.doubleComplete(v)\n\t\t}\n\n\t\tbK1, bK2 := k1Bytes[i], k2Bytes[i]\n\n\t\tpTbl.SelectAndAdd("),
  ("C04__rounding_bit_dropped", "point_mul_glv.go", "shouldAdd := (c5 >> 63) & 1", "shouldAdd := (c5 >> 63) & 0"),
  ("C04__split_wrong_constant", "point_mul_glv.go", "k2 := NewScalar().Multiply(c1, scNegB1)", "k2 := NewScalar().Multiply(c1, scNegB2)"),
- ("C04__table_odd_entry", "point_mul_table.go", "tbl[i+1].addComplete(&tbl[i], p)", "tbl[i+1].addComplete(&tbl[i], &tbl[0])\n\t\ttbl[i+1].addComplete(&tbl[i+1], &tbl[i/2])\n\t\ttbl[i+1].addComplete(&tbl[i], p)\n\t\tif i == 13 {\n\t\t\ttbl[i+1].doubleComplete(&tbl[6])\n\t\t\ttbl[i+1].addComplete(&tbl[i+1], &tbl[0])\n\t\t}"),
+ ("C04__table_odd_entry", "point_mul_table.go", "tbl[i+1].addComplete(&tbl[i], p)", "tbl[i+1].addComplete(&tbl[i], &tbl[i/2])"),
  ("C04__vartime_negate_only_scalar", "point_mul_glv.go", "\tif k2.IsGreaterThanHalfN() == 1 {\n\t\tk2.Negate(k2)\n\t\tpeePrime.Negate(peePrime)\n\t}", "\tif k2.IsGreaterThanHalfN() == 1 {\n\t\tk2.Negate(k2)\n\t\tpeePrime.Negate(pee)\n\t}"),
  ("C04__lookup_off_by_one", "point_mul_table_ref.go", "out.uncheckedConditionalSelect(out, &tbl[i-1], helpers.Uint64Equal(idx, i))\n\t}\n}\n\nfunc lookupAffinePoint", "out.uncheckedConditionalSelect(out, &tbl[i-1], helpers.Uint64Equal(idx, i|8))\n\t}\n}\n\nfunc lookupAffinePoint"),
  ("C05__nibbles_swapped", "point_mul_table.go", "\t\toddTbls[tblIdx].SelectAndAdd(v, uint64(b>>4))", "\t\toddTbls[tblIdx].SelectAndAdd(v, uint64(b&0xf))"),
@@ -48,6 +48,18 @@ M = [
  ("C05__vartime_table_reversed", "point_mul_table.go", "\t\ttbl[ScalarSize-(1+i)].SelectAndAddVartime(v, uint64(b))", "\t\ttbl[i].SelectAndAddVartime(v, uint64(b))"),
  ("C05__infinity_not_masked", "point_mul_table.go", "return sum.uncheckedConditionalSelect(tmp, sum, isInfinity)", "return sum.uncheckedConditionalSelect(tmp, tmp, isInfinity)"),
  ("C05__table_file_corrupted", "internal/gentable/point_mul_table.go", "package gentable", "package gentable // (the data file is patched separately)"),
+ ("C07__identity_R_accepted", "secec/ecdsa.go", "\tif R.IsIdentity() != 0 {\n\t\treturn errRIsInfinity\n\t}\n\n\t// 6. Convert", "\tif R.IsIdentity() > 1 {\n\t\treturn errRIsInfinity\n\t}\n\n\t// 6. Convert"),
+ ("C07__malleable_check_on_r", "secec/ecdsa.go", "if rejectMalleable && s.IsGreaterThanHalfN() != 0 {", "if rejectMalleable && r.IsGreaterThanHalfN() != 0 {"),
+ ("C07__u1_u2_swapped", "secec/ecdsa.go", "R.DoubleScalarMultBasepointVartime(u1, u2, q.point)", "R.DoubleScalarMultBasepointVartime(u2, u1, q.point)"),
+ ("C07__short_digest_padded", "secec/ecdsa.go", "if len(hash) < secp256k1.ScalarSize {", "if len(hash) < secp256k1.ScalarSize-1 {"),
+ ("C07__bip66_sighash_not_stripped", "secec/bitcoin/ecdsa_shitcoin.go", "return k.Verify(digest, sig[:len(sig)-1], optsShitcoin)", "return k.Verify(digest, sig[:len(sig)-2], optsShitcoin)"),
+ ("C10__zero_private_key", "secec/secec.go", "\tif s.IsZero() != 0 {\n\t\treturn nil, errInvalidPrivateKey\n\t}\n\n\t// Note: Caller ensures", "\tif s.IsZero() > 1 {\n\t\treturn nil, errInvalidPrivateKey\n\t}\n\n\t// Note: Caller ensures"),
+ ("C10__privkey_not_copied", "secec/secec.go", "return newPrivateKeyFromScalar(secp256k1.NewScalarFrom(s))", "return newPrivateKeyFromScalar(s)"),
+ ("C10__reduced_key_accepted", "secec/secec.go", "\tif didReduce != 0 {\n\t\treturn nil, errInvalidPrivateKey\n\t}", "\tif didReduce > 1 {\n\t\treturn nil, errInvalidPrivateKey\n\t}"),
+ ("C10__identity_pubkey", "secec/secec.go", "\tif pt.IsIdentity() != 0 {\n\t\treturn nil, errAIsInfinity\n\t}", "\tif pt.IsIdentity() > 1 {\n\t\treturn nil, errAIsInfinity\n\t}"),
+ ("C11__negE_dropped", "secec/ecdsa.go", "u1 := secp256k1.NewScalar().Multiply(negE, rInv)", "u1 := secp256k1.NewScalar().Multiply(e, rInv)"),
+ ("C11__id_bound", "point_s11n.go", "if recoveryID >= 4 {", "if recoveryID > 4 {"),
+ ("C11__s_zero_allowed", "secec/ecdsa.go", "if r.IsZero() != 0 || s.IsZero() != 0 {\n\t\treturn nil, errInvalidRorS\n\t}\n\n\t// This roughly", "if r.IsZero() != 0 {\n\t\treturn nil, errInvalidRorS\n\t}\n\n\t// This roughly"),
  # harmless refactorings: must stay green
  ("pass__C01__rename_local", "internal/field/field.go", "\tl := helpers.BytesToSaturated(src)\n\n\tdidReduce := reduceSaturated(&l, &l)\n\tfe.uncheckedSetSaturated(&l)\n\n\treturn fe, didReduce", "\tlimbs := helpers.BytesToSaturated(src)\n\n\twasReduced := reduceSaturated(&limbs, &limbs)\n\tfe.uncheckedSetSaturated(&limbs)\n\n\treturn fe, wasReduced"),
  ("pass__C03__commuted_add", "point_projective.go", "\t// t4 := t0 + t1 ; t3 := t3 - t4 ; t4 := Y1 + Z1 ;\n\tt4.Add(t0, t1)\n\tt3.Subtract(t3, t4)\n\tt4.Add(y1, z1)\n\n\t// X3 := Y2 + Z2", "\t// t4 := t0 + t1 ; t3 := t3 - t4 ; t4 := Y1 + Z1 ;\n\tt4.Add(t1, t0)\n\tt3.Subtract(t3, t4)\n\tt4.Add(z1, y1)\n\n\t// X3 := Y2 + Z2"),
